@@ -22,6 +22,12 @@ must raise (FileExistsError unless our fault fired first) and the target's tree 
 Every call, failed or not, must leave every path other than the target unchanged.  The *target* is what
 save() finally writes (``<path>.zip`` when store='zip' is given with an extension-less path), not the path as
 typed; the typed-path cases keep entries at both spellings and judge successful saves as well.
+
+Decoy neighbours: a staging / backup / lock name an implementation picks next to the target (``<target>.part``,
+``<target>.tmp``, ``.<target>``, ``<target>~`` ...) or inside tempfile.tempdir may already be in use by the user.
+A fraction of all cases and a few dedicated ones populate the sandbox directory and the staging directory with
+files, directories (empty and not) and symbolic links under such names *before* the save; they are part of the
+"other paths" snapshot, so a save that truncates, renames, deletes or writes through one of them is seen.
 """
 from __future__ import annotations
 
@@ -46,6 +52,10 @@ RULE = (
     "judged on the fault-free save and on sampled line faults. Widening: graphs with sub-objects shared by several paths, arrays / tensors in non-contiguous, read-only and "
     "expanded layouts, 60 attributes + a 25-item list, 20 nesting levels (sparser positions); save options (compression None/0/9 x skip list with a name and a type) crossed with line faults; "
     "neutral calls (load / print_file of an unrelated complete object) between the injections of every 5th case. "
+    "Decoy neighbours: pre-existing files / directories / symlinks named like staging, backup or lock paths of the target (T.part, T.tmp, T.temp, T.bak, T.old, T.new, "
+    "T.lock, T~, .T, .T.tmp, T.partial, T.swp, both spellings of the name with these suffixes, tmp*, ...) in the target's directory and in tempfile.tempdir, in 4 flavours "
+    "(all files, all directories, two mixed rotations incl. symlinks): on every natural / write-once / typed case, every 3rd line / io case (seed-rotated), plus dedicated "
+    "line and io cases store x (mode, pre) x flavour; judged by the same snapshot oracle on fault-free and faulted saves. "
     "One case = one residue class of fault positions of one configuration (K/J are discovered by injecting until the save completes). "
     "non-trivial = a fault fired after >=1 store write and before the last one; distinct = (graph, store, mode, pre, fault class, residue)"
 )
@@ -80,6 +90,15 @@ TYPED_VARIANTS = {"zip_noext": ("zip", "zip", "target"), "auto_zip": ("zip", "au
 BASE_EXCS = ["abort", "keyboard", "exit"]
 # (compression_level, skip) passed to save(); the reference object is saved with the same options
 SAVE_OPTIONS = [(None, ()), (9, ("s", "child")), (0, ("nums", "__ndarray__")), (None, ("i", "__str__")), (9, ())]  # InjectedAbort(BaseException), KeyboardInterrupt, SystemExit
+DECOY_FLAVOURS = ["files", "dirs", "mixed0", "mixed1"]
+# suffixes / patterns an implementation might plausibly use for staging, backup or locking; {T} = target name, {B} = name without '.zip'
+DECOY_PATTERNS = ["{T}.part", "{T}.tmp", "{T}.temp", "{T}.bak", "{T}.old", "{T}.new", "{T}.lock", "{T}~", ".{T}", ".{T}.tmp", "{T}.partial", ".{T}.part", "{T}.swp", ".{T}.swp",
+                  "{T}.orig", "{T}.backup", "{T}.save", "{T}.incomplete", "{T}.download", "{T}.writing", "{T}-tmp", "{T}_tmp", "{T}.tmp.zip", "{T}.0", "{T}.1", "#{T}#", "~{T}", "{T}.zip", "{T}.zarr",
+                  "{B}.zip.part", "{B}.zip.tmp", "{B}.zip.bak", "{B}.zip~", ".{B}.zip", ".{B}.zip.tmp", "{B}.part", "{B}.tmp", "{B}.bak", "{B}~", ".{B}", "{B}.zarr", "{B}_tmp", "{B}.tmp.zip", "{B}.part.zip",
+                  "tmp", "temp", ".tmp", "tmpdecoy", "tmp_decoy_of_the_user", "tmp.zip", "temp.zip", "tmpdir", "staging", "stage", ".lock", "lock", "part", ".part"]
+# the same inside tempfile.tempdir (mkdtemp names are 'tmp' + 8 characters: none of these can collide with one)
+STAGE_DECOY_PATTERNS = ["{T}", "{B}", "{T}.part", "{T}.tmp", "{B}.tmp", "tmp", "temp", "tmpdecoy", "tmp_decoy_of_the_user", "quantem", "quantem_tmp", "quantem-save", "zarr", "zarr_tmp", "stage", "staging",
+                        "store", "store.zarr", "{B}.zarr", "save", "autoserialize", ".lock"]
 WRITE_LABELS = ("Group.create_array", "Group.require_group", "Attributes.__setitem__", "Array.__setitem__", "ZipFile.write")
 
 
@@ -126,6 +145,21 @@ def plan(tier, seed):
                 xi += 1
                 specs.append({"fault": "line", "exc": "exception" if xi % 3 else "base", "graph": gi, "store": store, "mode": "o" if oi % 2 else "w", "pre": "complete" if oi % 2 else "none",
                               "stride": os_, "offset": (xi + seed) % os_, "residue": 0, "nres": 1, "opts": oi})
+    # dedicated decoy-neighbour cases: every store x (mode, pre) with each flavour over the seeds, a fault-free save plus sampled line faults,
+    # and I/O faults on every primitive (the zip assembly and the clean-up calls are where staging names are used)
+    ds, dio = (13, 3) if tier == "quick" else (5, 2)
+    for gi in (0,):
+        for store in STORES:
+            for mode, pre in CONFIGS:
+                for fl in (range(1) if tier == "quick" else range(len(DECOY_FLAVOURS))):
+                    xi += 1
+                    flav = DECOY_FLAVOURS[(xi + seed + fl) % len(DECOY_FLAVOURS)]
+                    exc = "exception" if (xi + fl) % 3 else "base"
+                    specs.append({"fault": "line", "exc": exc, "graph": gi, "store": store, "mode": mode, "pre": pre, "stride": ds, "offset": (xi + seed) % ds, "residue": 0, "nres": 1, "decoys": flav,
+                                  "_must_run": tier == "quick"})
+                    flav = DECOY_FLAVOURS[(xi + seed + fl + 1) % len(DECOY_FLAVOURS)]
+                    specs.append({"fault": "io", "exc": exc, "labels": IO_LABELS[store], "graph": gi, "store": store, "mode": mode, "pre": pre, "stride": dio, "offset": (xi + seed) % dio, "residue": 0, "nres": 1,
+                                  "decoys": flav, "_must_run": tier == "quick"})
     ci = 0
     for gi in range(ng):
         for store in STORES:
@@ -148,6 +182,14 @@ def plan(tier, seed):
                         st, nr = 1, 4
                     for r in range(nr):
                         specs.append({"fault": "io", "exc": exc, "labels": IO_LABELS[store], "graph": gi, "store": store, "mode": mode, "pre": pre, "stride": st, "offset": (ci + seed) % st, "residue": r, "nres": nr})
+    # decoy neighbours on a fraction of the cases above: every natural / write-once / typed case (cheap: few saves each), every 3rd of the rest
+    nd = seed
+    for i, sp in enumerate(specs):
+        if "decoys" in sp:
+            continue
+        if sp["fault"] in ("natural", "write_once", "typed") or (i + seed) % 3 == 0:
+            nd += 1
+            sp["decoys"] = DECOY_FLAVOURS[(nd + nd // 4) % len(DECOY_FLAVOURS)]
     return specs
 
 
@@ -275,7 +317,7 @@ def _place_pre(ctx, store, pre, target):
 class Sandbox:
     """base/sb holds the target and its siblings, base/stage is tempfile.tempdir while the case runs."""
 
-    def __init__(self, ctx, idx, store, sibling="default"):
+    def __init__(self, ctx, idx, store, sibling="default", decoys=None):
         self.base = os.path.join(ctx.tmp, "c08", "case%d" % idx)
         shutil.rmtree(self.base, ignore_errors=True)
         self.sb = os.path.join(self.base, "sb")
@@ -311,8 +353,51 @@ class Sandbox:
                 shutil.copytree(src, other)
             else:
                 shutil.copy2(src, other)
+        self.decoys = []
+        if decoys:
+            self._plan_decoys(store, decoys)
+            self.place_decoys()
         self._old_tmp = tempfile.tempdir
         tempfile.tempdir = self.stage
+
+    def _plan_decoys(self, store, flavour):
+        """[(path, kind)]: names a save might plausibly use for staging / backup / locking, next to the target and in tempfile.tempdir.
+        Never the target, the other spelling of its name (the typed-path cases decide what lives there) or an entry that exists already."""
+        T = os.path.basename(self.target)
+        B = T[:-4] if T.endswith(".zip") else T
+        rot = {"files": None, "dirs": None, "mixed0": 0, "mixed1": 1}[flavour]
+        seen = set()
+        n = 0
+        for root, pats in ((self.sb, DECOY_PATTERNS), (self.stage, STAGE_DECOY_PATTERNS)):
+            for pat in pats:
+                p = os.path.join(root, pat.format(T=T, B=B))
+                if p in seen or p in (self.target, self.other) or os.path.lexists(p):
+                    continue
+                seen.add(p)
+                n += 1
+                if flavour == "files":
+                    kind = "file"
+                elif flavour == "dirs":
+                    kind = "dir" if n % 3 else "emptydir"
+                else:
+                    # the two rotations are complementary: a file in one is a directory in the other
+                    kind = (("file", "dir", "link", "file", "emptydir", "dir"), ("dir", "file", "emptydir", "dir", "file", "link"))[rot][n % 6]
+                self.decoys.append((p, kind))
+
+    def place_decoys(self):
+        """(re)create every decoy; also used to put them back after a violation so that the next injection starts clean."""
+        for i, (p, kind) in enumerate(self.decoys):
+            _remove(p)
+            if kind == "file":
+                with open(p, "wb") as f:
+                    f.write(b"user data that merely lives next to the target %d " % i * (1 + i % 5))
+            elif kind == "link":
+                os.symlink(os.path.join(self.sb, "sibdir", "inner.bin"), p)
+            else:
+                os.makedirs(p)
+                if kind == "dir":
+                    with open(os.path.join(p, "user.dat"), "wb") as f:
+                        f.write(b"inside a user directory %d" % i)
 
     def others(self):
         return snapshot(self.base, exclude=self.target)
@@ -420,11 +505,17 @@ def attempt(ctx, sbx, g, gkey, store, mode, pre, arm, fault_class, fields, save_
     if after_others != before_others:
         changed = sorted(set(k for k in set(before_others) | set(after_others) if before_others.get(k) != after_others.get(k)))
         which = "staging_leak" if all(c.startswith("stage") for c in changed) else "sibling_changed"
-        ctx.check(False, "other_paths_unchanged", "paths other than the target changed: %s" % changed[:6], which=which, save_raised=raised is not None, **f)
+        ctx.check(False, "other_paths_unchanged", "paths other than the target changed: %s" % changed[:6], which=which, save_raised=raised is not None,
+                  **dict(f, decoys=fields.get("decoys", "none"), decoy_changed=any(os.path.join(sbx.base, c) == p or os.path.join(sbx.base, c).startswith(p + os.sep) for c in changed for p, _ in sbx.decoys)))
         # put the sandbox back so the next injection starts clean
         for c in changed:
             if c.startswith("stage"):
                 _remove(os.path.join(sbx.base, c))
+        if sbx.decoys:
+            if os.path.isdir(sbx.sb) and os.path.isdir(sbx.stage):
+                with open(os.path.join(sbx.sb, "sibdir", "inner.bin"), "wb") as fh:  # a write through a decoy link lands here
+                    fh.write(b"\x01\x02\x03")
+                sbx.place_decoys()
     else:
         ctx.check(True, "other_paths_unchanged")
 
@@ -513,7 +604,7 @@ def run_case(spec, idx, ctx):
     else:
         g = _graph(ctx, spec["graph"])
         gkey = (spec["graph"], store)
-    sbx = Sandbox(ctx, idx, store, sibling=spec.get("sibling", "default"))
+    sbx = Sandbox(ctx, idx, store, sibling=spec.get("sibling", "default"), decoys=spec.get("decoys"))
     outcomes = {}
     recs = []
     exc = spec.get("exc", "exception")
@@ -523,6 +614,9 @@ def run_case(spec, idx, ctx):
         return "exception" if exc == "exception" else BASE_EXCS[n % len(BASE_EXCS)]
 
     kw = {}
+    if spec.get("decoys"):
+        fields["decoys"] = spec["decoys"]
+        ctx.count("cases_with_decoy_neighbours")
     ctx.state["neutral"] = idx % 5 == 0
     if spec.get("opts") is not None:
         kw["opts"] = spec["opts"]
@@ -598,7 +692,7 @@ def run_case(spec, idx, ctx):
         ctx.count("outcome:%s" % r["outcome"])
     total_writes = max((r["writes"] for r in recs if not r["fired"] and r["raised"] is None), default=None)
     mid = [r for r in recs if (r["fired"] or fault == "natural") and r["raised"] is not None and r["writes"] >= 1 and (total_writes is None or r["writes"] < total_writes)]
-    sig = "%s|%s|%s|%s|%s|%s|%s|%s|%s" % (spec.get("graph", spec.get("bad")), store, mode, pre, fault, spec.get("position", ""), spec.get("residue", 0), exc, spec.get("variant", "") + spec.get("sibling", ""))
+    sig = "%s|%s|%s|%s|%s|%s|%s|%s|%s" % (spec.get("graph", spec.get("bad")), store, mode, pre, fault, spec.get("position", ""), spec.get("residue", 0), exc, spec.get("variant", "") + spec.get("sibling", "") + (spec.get("decoys") or ""))
     ctx.nontrivial(sig, bool(mid))
     ctx.observe(injections=sum(1 for r in recs if r["fired"] or (fault == "natural" and r["raised"])), outcomes=outcomes, mid_write_faults=len(mid), writes_of_complete_save=total_writes,
                 lines_of_complete_save=next((r["lines"] for r in recs if not r["fired"] and r["raised"] is None), None), fired_in=sorted(set(r["fired_fn"] for r in recs if r["fired_fn"]))[:8])
